@@ -475,6 +475,12 @@ func Run(opts *Options) (int, error) {
 							}
 							snapshot = newSnapshot
 							snapshotRevision = inputRevision
+							// The counter describes the list that is searched
+							if newCount != count {
+								count = newCount
+								total = count
+								terminal.UpdateCount(total, !reading, nil)
+							}
 						}
 					}
 					matcher.Reset(snapshot, input(), true, !reading, sort, snapshotRevision)
